@@ -703,6 +703,17 @@ func GenZoo(t *tape.Tape) *Query {
 
 // AltRequests select plain fields of Keeper through both Go structs that serve
 // it (boss, keepers: Keeper; chief: KeeperAlt, other field order).
+// MetaTwinRequests are introspection requests that are textually equal up to
+// the body of a named fragment.
+var MetaTwinRequests = []string{
+	"{ __schema { ...MetaS } }\nfragment MetaS on __Schema { queryType { name } }\n",
+	"{ __schema { ...MetaS } }\nfragment MetaS on __Schema { directives { name } }\n",
+	"{ __schema { ...MetaS } }\nfragment MetaS on __Schema { types { name kind } mutationType { name } }\n",
+	"{ __schema { ...MetaS } }\nfragment MetaS on __Schema { queryType { kind fields { name } } }\n",
+	"{ __type(name: \"Keeper\") { ...MetaT } }\nfragment MetaT on __Type { kind name }\n",
+	"{ __type(name: \"Keeper\") { ...MetaT } }\nfragment MetaT on __Type { fields { name type { name kind } } }\n",
+}
+
 // LabelRequests select the two GraphQL types served by one Go struct, by value
 // and by pointer.
 var LabelRequests = []string{
